@@ -30,6 +30,10 @@ const (
 	tokNLoop = 11 // localhost:pA          (/etc/hosts -> 127.0.0.1: forbidden for RequirePublicIP)
 	tokNPub  = 12 // pub.verif.test:pE     (fake DNS -> 192.0.2.2: allowed)
 	tokNPriv = 13 // priv.verif.test:pF    (fake DNS -> fd00::2, ULA: forbidden)
+	// destinations the validator allows but to which the outbound socket cannot send (port 0: sendto fails with EINVAL):
+	// the failed send must leave the association, its deadline and its socket as they are
+	tokFailL = 14 // 127.0.0.1:0
+	tokFailP = 15 // 192.0.2.2:0
 	natT     = 300 * time.Millisecond
 	dnsT     = 17 * time.Second
 	boundMs  = 500
@@ -38,8 +42,9 @@ const (
 type world struct {
 	socks    map[int]*sock // by token
 	rng      *rand.Rand
-	allSalts map[string]bool // every salt seen in replies during the whole run
-	names    map[int]nameDst // host-name destinations
+	allSalts map[string]bool      // every salt seen in replies during the whole run
+	names    map[int]nameDst      // host-name destinations
+	unsend   map[int]*net.UDPAddr // destinations a send to which fails
 }
 
 type nameDst struct {
@@ -84,6 +89,7 @@ func newWorld(rng *rand.Rand, withZoned bool) *world {
 	if w.socks[tokB] == nil {
 		hx.Fatal("could not bind a loopback port 53")
 	}
+	w.unsend = map[int]*net.UDPAddr{tokFailL: {IP: net.IPv4(127, 0, 0, 1).To4(), Port: 0}, tokFailP: {IP: net.IPv4(192, 0, 2, 2).To4(), Port: 0}}
 	// host names: net.ResolveUDPAddr in the packet handler goes through net.DefaultResolver -> in-process fake DNS
 	zone := map[string][]net.IP{}
 	w.names[tokNLoop] = nameDst{"localhost", tokA}
@@ -171,7 +177,8 @@ type run struct {
 	notes     []string
 	forceLA   int
 	noRetire  int
-	curDst    int // destination token named by the datagram of the current step
+	stepTO    time.Duration // timeout class of the destination of the current client datagram
+	curDst    int           // destination token named by the datagram of the current step
 	closeL    func() error
 	floodEmit int64
 }
@@ -325,6 +332,12 @@ func (r *run) emitM(evs []mEvent, did, sid int) {
 			r.liveOf[c] = e.A
 		case "PktC", "CS":
 			line["did"] = did
+			if e.M == "PktC" && e.St == "ERR_WRITE" {
+				// the failed send has extended the deadline all the same (onWrite runs before the socket's WriteTo)
+				if ai := r.assocs[e.A]; ai != nil && r.stepTO > 0 && e.T.Add(r.stepTO).After(ai.hiDl) {
+					ai.hiDl = e.T.Add(r.stepTO)
+				}
+			}
 		case "PktT":
 			line["did"] = sid
 		case "NatRemove":
